@@ -14,7 +14,7 @@ class ExtractError(Exception):
     pass
 
 
-def mask(src: str) -> str:
+def mask(src: str, bstr_spans=None) -> str:
     """Return a string of the same length as src in which the *contents* of
     comments, strings and char literals are replaced by spaces (newlines kept).
     Delimiters of strings are replaced too, so the result contains only code."""
@@ -50,6 +50,8 @@ def mask(src: str) -> str:
             j = i + (2 if c == 'b' else 1)
             while j < n and src[j] != '"':
                 j += 2 if src[j] == '\\' else 1
+            if c == 'b' and bstr_spans is not None:
+                bstr_spans.append((i, j + 1))
             blank(i, j + 1)
             i = j + 1
         elif c in 'rb' and not _ident_before(src, i) and re.match(r'b?r#*"', src[i:i + 40]):
@@ -72,6 +74,31 @@ def mask(src: str) -> str:
         else:
             i += 1
     return ''.join(out)
+
+
+def byte_string_literals(src: str):
+    """(start, end, bytes) of every plain byte-string literal b"..." in src (comments / other literals skipped)."""
+    spans = []
+    mask(src, spans)
+    out = []
+    for (i, e) in spans:
+        j = i + 2
+        val = bytearray()
+        while j < e - 1:
+            if src[j] == '\\':
+                c = src[j + 1]
+                if c == 'x':
+                    val.append(int(src[j + 2:j + 4], 16)); j += 4
+                elif c in 'nrt0\\"\'':
+                    val.append({'n': 10, 'r': 13, 't': 9, '0': 0, '\\': 92, '"': 34, "'": 39}[c]); j += 2
+                else:
+                    raise ExtractError('unsupported escape in byte string literal')
+            else:
+                if ord(src[j]) > 127:
+                    raise ExtractError('non-ASCII character in byte string literal')
+                val.append(ord(src[j])); j += 1
+        out.append((i, e, bytes(val)))
+    return out
 
 
 def _ident_before(src, i):
